@@ -85,11 +85,13 @@ func (c vkCfg) String() string {
 //	authns   every authoritative answer of the old c.p. server also carries "c.p. NS ghost.c.p." (TTL 7 d) in the
 //	         authority section plus glue to itself: the classic ghost-domain self-extension with a changing NS name
 //	bigttl   every record the old children serve carries TTL 7 d
+//	tinyttl  every record the old children serve carries TTL 1 s: the answer cache raises it to its 5 s floor, which the
+//	         lease must still override
 //	selfref  once the parent has changed the delegation, the old c.p. server answers everything with a referral to itself
 //	twons    the parent's referral for c.p. lists a second, glue-less NS host (provisional delegation entries, NS address
 //	         lookup through the delegation being established); that lookup takes 3 virtual seconds
 //	lagval   (DNSSEC) the DNSKEY exchange that validates a referral takes 3 virtual seconds (validation latency)
-var vkBehaviours = []string{"honest", "authns", "bigttl", "selfref", "twons", "lagval"}
+var vkBehaviours = []string{"honest", "authns", "bigttl", "tinyttl", "selfref", "twons", "lagval"}
 
 // ---------------------------------------------------------------- exchanges
 
@@ -275,11 +277,15 @@ func (w *vkWorld) honest(server string, q dns.Question, do bool) *dns.Msg {
 			m.Ns = append(m.Ns, &dns.NS{Hdr: dns.RR_Header{Name: vkZoneC, Rrtype: dns.TypeNS, Class: dns.ClassINET, Ttl: 7 * 86400}, Ns: vkGhost})
 		}
 		m.Extra = append(m.Extra, vkA(vkGhost, vkAddrCOld, 7*86400))
-	case cfg.Beh == "bigttl" && (server == vkSrvCOld || server == vkSrvGOld) && m.Authoritative:
+	case (cfg.Beh == "bigttl" || cfg.Beh == "tinyttl") && (server == vkSrvCOld || server == vkSrvGOld) && m.Authoritative:
+		ttl := uint32(7 * 86400)
+		if cfg.Beh == "tinyttl" {
+			ttl = 1
+		}
 		for _, sec := range [][]dns.RR{m.Answer, m.Ns, m.Extra} {
 			for _, rr := range sec {
-				if rr.Header().Rrtype != dns.TypeOPT && rr.Header().Rrtype != dns.TypeRRSIG {
-					rr.Header().Ttl = 7 * 86400
+				if t := rr.Header().Rrtype; t != dns.TypeOPT && (t != dns.TypeRRSIG || ttl == 1) {
+					rr.Header().Ttl = ttl
 				}
 			}
 		}
